@@ -869,13 +869,33 @@ def _r6(ctx, repo, A):
         timed = [c for c in calls if len(c.args) > 1 and any(
             isinstance(x, ast.Name) and x.id == svar for x in ast.walk(c.args[1]))]
         bad = None
+        from ..core.analysis import contradicts, norm_fact
+        # the slice is the only statement that re-binds the variable, so on a path that
+        # avoids it the variable keeps its None-ness: a branch that needs the opposite of
+        # what holds at the timed call cannot lie on such a path
+        other_writers = [st_ for st_ in ast.walk(wpf.node)
+                         if isinstance(st_, (ast.Assign, ast.AugAssign)) and st_ is not sl[0]
+                         and any(dotted(t_) == svar for t_ in
+                                 (st_.targets if isinstance(st_, ast.Assign) else [st_.target]))]
         for c2 in timed:
             for n2 in cfg.owners(c2):
-                if cfg.path_exists(cfg.entry, n2, avoid=slnodes, skip_labels=("exc", "raise")):
+                f2 = [f_ for f_ in facts(cfg, n2) if f_[0] in ("isnone", "truthy") and f_[1] == svar]
+                infeasible = set()
+                if f2 and not other_writers:
+                    for t_ in cfg.nodes:
+                        if t_.kind != "test" or t_.expr is None:
+                            continue
+                        for pol_, lab_ in ((True, "T"), (False, "F")):
+                            fs_ = [norm_fact(a_, tt_) for a_, tt_ in decompose_guard(t_.expr, pol_)]
+                            if any(contradicts(x_, y_) for x_ in fs_ for y_ in f2):
+                                infeasible.add((t_, lab_))
+                if cfg.path_exists(cfg.entry, n2, avoid=slnodes, skip_labels=("exc", "raise"),
+                                   skip_edges=infeasible):
                     bad = (None, c2)
                 for c1 in timed:
                     for n1 in cfg.owners(c1):
-                        if cfg.path_exists(n1, n2, avoid=slnodes, skip_labels=("exc", "raise")):
+                        if cfg.path_exists(n1, n2, avoid=slnodes, skip_labels=("exc", "raise"),
+                                           skip_edges=infeasible):
                             bad = (c1, c2)
         if timed and bad is None:
             ctx.ok("C15.R6", "slice-per-wait", sample="every timed check_gone() is preceded, on "
